@@ -207,6 +207,28 @@ func (fv *FV) callMods(call *ast.CallExpr, ms *modSet) {
 
 func (fv *FV) havoc(st *State, ms *modSet) {
 	done := map[types.Object]bool{}
+	var aliasPaths []*Path
+	oldVals := map[types.Object]Term{}
+	defer func() {
+		// locations reached through aliases keep their nil-ness (only what they refer to is modified)
+		for _, ra := range aliasPaths {
+			ov, ok := oldVals[ra.Root]
+			nv, ok2 := st.vars[ra.Root]
+			if !ok || !ok2 {
+				continue
+			}
+			for _, s := range ra.Steps {
+				ov = fv.stepRead(st, ov, s, true)
+				nv = fv.stepRead(st, nv, s, true)
+				switch ov.Sort.Kind {
+				case KMap:
+					st.assume(tEq(mpNil(nv), mpNil(ov)))
+				case KPtr:
+					st.assume(tEq(tEq(nv, ptrNil(ov.Sort)), tEq(ov, ptrNil(ov.Sort))))
+				}
+			}
+		}
+	}()
 	for o := range ms.objs {
 		root := o
 		if a := st.alias[o]; a != nil {
@@ -214,22 +236,8 @@ func (fv *FV) havoc(st *State, ms *modSet) {
 			if ra.Ghost != "" {
 				continue
 			}
-			if len(ra.Steps) > 0 && !ms.objs[ra.Root] {
-				// havoc only the aliased location, keeping the rest of the root value
-				cur := fv.readPath(st, ra, true)
-				nv := fv.fresh(o.Name(), cur.Sort)
-				if !ms.direct[o] {
-					switch cur.Sort.Kind {
-					case KMap:
-						st.assume(tEq(mpNil(nv), mpNil(cur)))
-					case KPtr:
-						st.assume(tEq(tEq(nv, ptrNil(cur.Sort)), tEq(cur, ptrNil(cur.Sort))))
-					}
-				}
-				fv.quietUpdate = true
-				fv.writePath(st, ra, nv, token.NoPos)
-				fv.quietUpdate = false
-				continue
+			if len(ra.Steps) > 0 {
+				aliasPaths = append(aliasPaths, ra)
 			}
 			root = ra.Root
 		}
@@ -242,6 +250,7 @@ func (fv *FV) havoc(st *State, ms *modSet) {
 			continue
 		}
 		nv := fv.fresh(root.Name(), cur.Sort)
+		oldVals[root] = cur
 		st.vars[root] = nv
 		if cur.Sort.Kind == KPtr && (ms.direct == nil || !ms.direct[root]) {
 			// only the pointee is modified: the pointer keeps its nil-ness
